@@ -17,7 +17,8 @@ enum What {
     Jc2m,
     Mindustry,
     TheShip,
-    Battalion { overrides: u8 },
+    /// `contrary`: the info reply says the opposite of what the override rules say (password set, rule says N)
+    Battalion { overrides: u8, contrary: bool },
     Eco { mode: u8 },
 }
 
@@ -54,11 +55,13 @@ fn cases(tier: Tier) -> Vec<Case> {
     v.push(Case { label: format!("theship dev<={dev}"), what: What::TheShip, bound: dev });
     for overrides in 0 .. 64u8 {
         let b = if overrides == 0 || overrides == 63 { dev } else { 0 };
-        v.push(Case {
-            label: format!("battalion1944 overrides present={overrides:06b} dev<={b}"),
-            what: What::Battalion { overrides },
-            bound: b,
-        });
+        for contrary in [false, true] {
+            v.push(Case {
+                label: format!("battalion1944 overrides present={overrides:06b}{} dev<={b}", if contrary { " (info reply contradicting the rules)" } else { "" }),
+                what: What::Battalion { overrides, contrary },
+                bound: b,
+            });
+        }
     }
     for mode in 0 .. 4u8 {
         // every body framing gets the single-field deviations (a long body must survive chunked / close-delimited / gzip too)
@@ -180,7 +183,7 @@ impl Prop for C07 {
                     |t| t,
                 );
             }
-            What::Battalion { overrides } => {
+            What::Battalion { overrides, contrary } => {
                 explore_decode(
                     ctx,
                     case.bound,
@@ -194,11 +197,14 @@ impl Prop for C07 {
                         let vals = [
                             crate::rsm::pick(c, &["16", "0", "255"]).to_string(),
                             crate::rsm::pick(c, &["5", "0", "255"]).to_string(),
-                            crate::rsm::pick(c, &["Y", "N", ""]).to_string(),
+                            crate::rsm::pick(c, if contrary { &["N", "Y", ""] } else { &["Y", "N", ""] }).to_string(),
                             crate::rsm::pick_str(c, "Battalion override name"),
                             crate::rsm::pick_str(c, "Domination"),
                             crate::rsm::pick_str(c, "Coastal"),
                         ];
+                        if contrary {
+                            s.info.visibility = 1;
+                        }
                         for (i, k) in BAT_KEYS.iter().enumerate() {
                             if overrides & (1 << i) != 0 {
                                 s.rules.push((k.to_string(), vals[i].clone()));
@@ -301,5 +307,6 @@ fn expected_battalion(s: &rv::State) -> valve::game::Response {
     }
     rules.remove("bat_map_s");
     e.rules = Some(rules);
-    valve::game::Response::new_from_valve_response(e)
+    // (field-by-field reference conversion, not the one under test)
+    super::c02::reference_game_response(&e)
 }
